@@ -171,3 +171,186 @@ def run(ctx):
     cap = [s_ for s_ in walk_no_nested(ini.node) if isinstance(s_, ast.Assign) and is_self_attr(s_.targets[0], "_capability")]
     ctx.check("R09.2", f"{ini.key}::advertises only TIMES|ADJOINT_TIMES (what both candidate transforms support)",
               len(cap) == 1 and src(cap[0].value) in ("self.TIMES | self.ADJOINT_TIMES", "self.ADJOINT_TIMES | self.TIMES"), src(cap[0].value) if cap else None, ini)
+
+
+# ---------------------------------------------------------------------------------------------------------------- R09.3-R09.5
+TRANSFORM_WORDS = ("fft", "hartley", "fht", "c2c")
+
+
+def _is_transform_name(nm):
+    return nm is not None and any(w in nm.lower() for w in TRANSFORM_WORDS)
+
+
+def r09_3(ctx, m):
+    """config identity: readers import the dict object by name, so the writer must mutate it in place"""
+    cfgm = m.module(CFGMOD)
+    ctx.rule("R09.3", "the configuration dict is shared by identity: modules bind it with `from ..config import _config`, so "
+                      "nifty.config binds `_config` exactly once (module level) and update() stores the value by item assignment "
+                      "into that object", floor=3)
+    importers = []
+    for modn in (DD, RCF, "nifty.cl.any_array"):
+        mod = m.module(modn)
+        for n in ast.walk(mod.tree):
+            if isinstance(n, ast.ImportFrom) and (n.module or "").endswith("config") and any(a.name == "_config" for a in n.names):
+                importers.append(mod.relpath)
+    binds = []
+    for n in ast.walk(cfgm.tree):
+        tg = []
+        if isinstance(n, ast.Assign):
+            tg = n.targets
+        elif isinstance(n, (ast.AugAssign, ast.AnnAssign)):
+            tg = [n.target]
+        elif isinstance(n, ast.Delete):
+            tg = n.targets
+        elif isinstance(n, (ast.For, ast.With)):
+            tg = [x for x in ast.walk(n) if isinstance(x, ast.Name) and isinstance(x.ctx, ast.Store)]
+        for t in tg:
+            for x in ([t] if not isinstance(t, (ast.Tuple, ast.List)) else t.elts):
+                if isinstance(x, ast.Name) and x.id == "_config":
+                    binds.append(n)
+    toplevel = [b for b in binds if b in cfgm.tree.body]
+    by_name = bool(importers)
+    ctx.check("R09.3", f"{cfgm.relpath}::_config is bound once, at module level (readers hold the object: {sorted(set(importers))})",
+              (len(binds) == 1 and len(toplevel) == 1) if by_name else None,
+              "; ".join(f"line {b.lineno}: {short(b)}" for b in binds if b not in toplevel) or None, cfgm.relpath,
+              next((b for b in binds if b not in toplevel), None))
+    upd = cfgm.functions["update"]
+    kn, vn = upd.params()[:2]
+    from ..util import cfg_of
+    cfg = cfg_of(upd)
+    stores = [n for n in cfg.nodes if n.kind == "stmt" and isinstance(n.ast, ast.Assign) and isinstance(n.ast.targets[0], ast.Subscript)
+              and src(n.ast.targets[0].value) == "_config"]
+    okk = len(stores) == 1 and src(stores[0].ast.targets[0].slice) == kn and src(stores[0].ast.value) == vn \
+        and stores[0].id in cfg.dominators().get(cfg.exit.id, ())
+    ctx.check("R09.3", f"{upd.key}::every normal return has stored _config[<key>] = <value> in place", okk,
+              None if okk else f"{len(stores)} item store(s) into _config", upd)
+    for rel in sorted(set(importers)):
+        ctx.ok("R09.3", f"{rel}::binds the configuration object by name", None, rel)
+
+
+def r09_4(ctx, m):
+    """axes forwarding through the back ends and from the operators"""
+    ctx.rule("R09.4", "sub-space transforms: every back-end function with an `axes` parameter forwards it to each transform call "
+                      "it makes; FFTOperator.apply / HartleyOperator._apply_cartesian transform exactly the axes of their space "
+                      "(`<x>.domain.axes[self._space]`)", floor=12)
+    from ..util import cfg_of, find_nodes
+    from ..terms import inline_at
+    funcs = []
+    for modn in (DD, RCF):
+        mod = m.module(modn)
+        for fi in m.functions_in(modn) if hasattr(m, "functions_in") else []:
+            funcs.append(fi)
+    if not funcs:
+        for modn in (DD, RCF):
+            mod = m.module(modn)
+            for n in ast.walk(mod.tree):
+                if isinstance(n, ast.FunctionDef) and any(a.arg == "axes" for a in n.args.args) and _is_transform_name(n.name):
+                    funcs.append((mod, n))
+    for mod, fn in funcs:
+        aliases = set()
+        for st in walk_no_nested(fn):
+            if isinstance(st, ast.Assign) and isinstance(st.targets[0], ast.Name) and isinstance(st.value, ast.IfExp) \
+                    and all(_is_transform_name(src(b).split(".")[-1]) for b in (st.value.body, st.value.orelse)):
+                aliases.add(st.targets[0].id)
+        for c in walk_no_nested(fn):
+            if not isinstance(c, ast.Call):
+                continue
+            nm = call_name(c)
+            if not (_is_transform_name(nm) or (isinstance(c.func, ast.Name) and c.func.id in aliases)):
+                continue
+            kw = [k for k in c.keywords if k.arg == "axes"]
+            passed = (len(kw) == 1 and src(kw[0].value) == "axes") or (len(c.args) >= 2 and src(c.args[1]) == "axes")
+            ctx.check("R09.4", f"{mod.relpath}::{fn.name}::{src(c.func)}(...) receives axes", passed,
+                      None if passed else f"`{short(c)}` transforms over all axes although the caller selected {fn.name}(..., axes)",
+                      mod.relpath, c)
+    F = m.cls(HO, "FFTOperator")
+    H = m.cls(HO, "HartleyOperator")
+    for cls, meth in ((F, "apply"), (H, "_apply_cartesian")):
+        fi = cls.methods[meth]
+        xn = fi.params()[1]
+        cfg = cfg_of(fi)
+        rd = cfg.reaching_defs(fi.params())
+        aliases = {st.targets[0].id for st in walk_no_nested(fi.node) if isinstance(st, ast.Assign) and isinstance(st.targets[0], ast.Name)
+                   and isinstance(st.value, ast.Name) and _is_transform_name(st.value.id)}
+        calls = find_nodes(cfg, lambda q: isinstance(q, ast.Call) and (_is_transform_name(call_name(q)) or (isinstance(q.func, ast.Name) and q.func.id in aliases)))
+        key = f"{fi.key}::transforms the axes of its own space"
+        if not calls:
+            ctx.und("R09.4", key, "no transform call found", fi)
+            continue
+        for n, c in calls:
+            kw = [k.value for k in c.keywords if k.arg == "axes"] or (c.args[1:2])
+            e = inline_at(cfg, rd, n.id, kw[0], depth=2) if kw else None
+            ctx.check("R09.4", key, e is not None and src(e) == f"{xn}.domain.axes[self._space]", src(e) if e is not None else "no axes passed", fi, c)
+
+
+def r09_5(ctx, m):
+    """axis bookkeeping of the JAX correlated field (length-domain abstract interpretation of the sub-grid loop)"""
+    from ..lendom import unroll, lin_add, lin_str
+    ctx.rule("R09.5", "CorrelatedFieldMaker.finalize: for the i-th sub-grid the Hartley transform acts on exactly the array axes "
+                      "its harmonic shape occupies in the accumulated excitation shape, range(len(shape before), len(shape after)); "
+                      "the spherical transform on the last of them (loop unrolled symbolically for 3 sub-grids)", floor=3)
+    C = m.cls(RCF, "CorrelatedFieldMaker")
+    fi = C.methods["finalize"]
+    ctx.saw_func(fi)
+    body = fi.node.body
+    loops = [(i, st) for i, st in enumerate(body) if isinstance(st, ast.For)
+             and any(isinstance(c, ast.Call) and call_name(c) == "partial" and c.args and _is_transform_name(src(c.args[0])) for c in ast.walk(st))]
+    key0 = f"{fi.key}::sub-grid loop"
+    if len(loops) != 1:
+        ctx.und("R09.5", key0, f"{len(loops)} loops building partial(<transform>, axes=...)", fi)
+        return
+    idx, loop = loops[0]
+    # role: the accumulated shape is what parametrises the excitations after the loop
+    acc = None
+    for st in body[idx + 1:]:
+        for c in ast.walk(st):
+            if isinstance(c, ast.Call) and call_name(c) == "ShapeWithDtype" and c.args and isinstance(c.args[0], ast.Name):
+                acc = acc or c.args[0].id
+    if acc is None:
+        ctx.und("R09.5", key0, "accumulated excitation shape not identified (ShapeWithDtype(<name>) after the loop)", fi)
+        return
+
+    def pred(c):
+        return (call_name(c) == "partial" and c.args and _is_transform_name(src(c.args[0]))) or call_name(c) == "get_sht"
+
+    K = 3
+    sites, ends = unroll(body[:idx], loop, K, pred)
+    lens = []
+    for e in ends:
+        v = e.get(acc)
+        lens.append(v[1] if v is not None and v[0] == "tuple" else None)
+    if any(l is None for l in lens):
+        ctx.und("R09.5", key0, f"length of `{acc}` not tracked through the loop", fi)
+        return
+    from ..lendom import LenInterp
+    for c, it, env in sites:
+        lo, hi = lens[it], lens[it + 1]
+        interp = LenInterp([x.id for x in ast.walk(loop.target) if isinstance(x, ast.Name)], it)
+        interp.env = env
+        if call_name(c) == "partial":
+            kw = [k.value for k in c.keywords if k.arg == "axes"]
+            v = interp.ev(kw[0]) if kw else None
+            key = f"{fi.key}::sub-grid {it}: Hartley axes = positions of its harmonic shape"
+            if v is None or v[0] != "range":
+                ctx.und("R09.5", key, f"axes expression `{src(kw[0]) if kw else None}` not understood", fi, c)
+                continue
+            good = v[1] == lo and v[2] == hi and lo != hi
+            ctx.check("R09.5", key, good, f"axes = range({lin_str(v[1])}, {lin_str(v[2])}); the sub-grid occupies range({lin_str(lo)}, {lin_str(hi)})", fi, c)
+        else:
+            kw = [k.value for k in c.keywords if k.arg == "axis"]
+            v = interp.ev(kw[0]) if kw else None
+            key = f"{fi.key}::sub-grid {it}: spherical transform on its (last) axis"
+            if v is None or v[0] != "int":
+                ctx.und("R09.5", key, f"axis expression not understood", fi, c)
+                continue
+            ctx.check("R09.5", key, v[1] == lin_add(hi, {1: 1}, -1) and lo != hi, f"axis = {lin_str(v[1])}; accumulated length {lin_str(hi)}", fi, c)
+
+
+_run_c09b = run
+
+
+def run(ctx):  # noqa: F811
+    _run_c09b(ctx)
+    r09_3(ctx, ctx.model)
+    r09_4(ctx, ctx.model)
+    r09_5(ctx, ctx.model)
